@@ -239,6 +239,13 @@ class PortModel(object):
                 if not definitely_equal:
                     r = ('sym', s3.fresh('memcmp'), I32[0], I32[1])
                     s3.env[r] = s3.dom(r).without(0)
+                    # "the two ranges differ" is a disjunction the domain cannot hold byte-wise; where the compared pairs are
+                    # exactly those of a tracked equality predicate, its status (False) is kept as a tag
+                    got = set(frozenset((s3.canon(x), s3.canon(y))) for x, y in zip(xs, ys))
+                    for pname, pairs in (getattr(I, 'tracked_preds', None) or {}).items():
+                        if got == set(frozenset((s3.canon(a_), s3.canon(b_))) for a_, b_ in pairs):
+                            s3.tags = dict(s3.tags)
+                            s3.tags['pred:' + pname] = False
                     out.append((s3, Val(rty, r)))
         return out
 
